@@ -248,7 +248,8 @@ def run(F, req):
             r["before"] = state_of(fmt, obj, F)
             if fmt in ("rpms", "modules", "extra_files"):
                 import c08_manifests
-                r["content"] = c08_manifests.content_key(fmt, obj)
+                # the mapping reached AND the outcome of every call: both must be the same for every rearranged history
+                r["content"] = c08_manifests.content_key(fmt, obj) + ":" + c08_manifests.outcomes_key(fmt, spec)
             for i in range(n):
                 t = dump(F, fmt, obj, mv)
                 r["sha"].append(sha(t))
